@@ -485,14 +485,14 @@ def run(repo, check):
     check.run_rule(rule_r2, repo)
     check.run_rule(rule_r3, repo)
     from sa.rules import c04, c17
-    r4 = c04.rule_r3(repo, 'quick')
+    r4 = check.call(c04.rule_r3, repo, 'quick')
     r4.rule = 'C11.R4'
     r4.title = 'the decoder consumes exactly the declared extent of every section, so a decode reports the span the scanner advances by (shared with C04.R3)'
     r4.findings = [f for f in r4.findings if f.key.startswith('Decoder.')]
     for f in r4.findings:
         f.rule = 'C11.R4'
     check.add(r4)
-    r5 = c17.rule_r2(repo)
+    r5 = check.call(c17.rule_r2, repo)
     r5.rule = 'C11.R5'
     r5.title = 'filter expressions over metadata read the section they name (shared with C17.R2)'
     for f in r5.findings:
